@@ -228,6 +228,10 @@ var newStateRoots = map[string][][2]string{
 	"C07": {{PkgG, "Organism.UpdatePhenotype"}},
 	"C14": {{PkgN, "Network.MaxActivationDepth"}, {PkgN, "Network.MaxActivationDepthWithCap"}},
 	"C20": {{PkgE, "Experiment.Execute"}},
+	"C18": {{PkgM, "NewNodeActivatorsFactory"}, {PkgM, "NodeActivatorsFactory.Register"}, {PkgM, "NodeActivatorsFactory.RegisterModule"}},
+	"C12": {{PkgN, "Network.FastNetworkSolver"}, {PkgN, "NewFastModularNetworkSolver"}, {PkgN, "NewNetwork"}, {PkgN, "NewModularNetwork"}},
+	"C13": {{PkgN, "Network.FastNetworkSolver"}, {PkgN, "NewFastModularNetworkSolver"}, {PkgN, "NewNetwork"}, {PkgN, "NewModularNetwork"}},
+	"C11": {{PkgG, "Genome.Genesis"}, {PkgN, "NewNetwork"}, {PkgN, "NewModularNetwork"}},
 }
 
 // NewStateRule adds, after a property's own rules ran, one obligation per piece of state that the pinned tree
